@@ -3,6 +3,7 @@ package producer
 import (
 	"bytes"
 	"fmt"
+	"strings"
 
 	"github.com/evstack/ev-node/block"
 	"github.com/evstack/ev-node/types"
@@ -35,6 +36,10 @@ type Oracle struct {
 	tampered   bool // a cache file was truncated by hand (not a crash): start-up may then fail in LoadCache
 	earlyEmpty bool // an empty batch older than the last block was handed out
 	Peeks      int  // reads made by a client of the node while the execution layer worked
+	// Cfg.Loop (loop.go)
+	Rounds      int      // rounds made by the node's own production loop
+	FaultRounds int      // ... in which the sequencing layer was asked and had nothing to build from (error of any class, no batch)
+	Halts       []string // result class of every round after which the loop ended on its own
 }
 
 type batchRec struct {
@@ -53,7 +58,7 @@ func (o *Oracle) fail(sig, what string) {
 		}
 	}
 	o.Sigs = append(o.Sigs, sig)
-	o.What = append(o.What, what)
+	o.What = append(o.What, strings.ReplaceAll(what, "\n", " | ")) // one line (joined errors print on several)
 }
 
 // cause attributes a liveness / agreement failure to the class of the history
